@@ -223,7 +223,10 @@ def rule_order(run, prog):
     hl = prog.method("Highlight", "__lt__")
     el = prog.method("Error", "__lt__")
     run.require(hl is not None and el is not None, "anchor vanished: Highlight.__lt__ / Error.__lt__")
-    methods = {("Highlight", "__lt__"): hl.node, ("Error", "__lt__"): el.node}
+    methods = {}
+    for cname in ("Highlight", "Error"):
+        for mname, m in prog.cls(cname).methods.items():
+            methods[(cname, mname)] = m.node
     hints = (None, "ab", "abcd")
     H = [Obj("Highlight", lineno=l, column=c, length=None, hint=h) for l in (1, 2, 3) for c in (1, 2, 3) for h in hints]
 
